@@ -341,7 +341,7 @@ CLASSES = ['generic', 'generic', 'identity', 'degenerate', 'inverse', 'zeroH']
 def one_case(r, i, thorough, spec=None, window_case=False):
     if spec is None:
         if window_case:
-            cls, d, G = 'window', 4, [5, 16][i % 2]
+            cls, d, G = 'window', 4, ([5, 16][i % 2] if thorough else 5)
             pp, _ = gen.rand_pulse(r, d=4, G=2, basis_kind='pauli', dtc='generic', amp='generic', noise='generic', sens='generic')
             p = pp
             w = window_frequency(r, p, G)
@@ -349,7 +349,7 @@ def one_case(r, i, thorough, spec=None, window_case=False):
             ftags = ['window' if w is not None else 'generic', 'generic']
         else:
             cls = CLASSES[i % len(CLASSES)]
-            d = int(r.choice([2, 2, 3])) if thorough else (3 if i % 5 == 4 else 2)
+            d = int(r.choice([2, 2, 3])) if thorough else (3 if i % 10 == 4 else 2)
             G = GS[i % len(GS)]
             p = make_pulse(r, cls, d)
             omega, ftags = frequency_grid(r, p, nsing=4 if thorough else (1 if (d == 3 and G == 16) else 3))
@@ -359,7 +359,10 @@ def one_case(r, i, thorough, spec=None, window_case=False):
         omega = _arr(spec['omega']).real
         G = int(spec['G'])
     window = [k for k, t in enumerate(spec['ftags']) if t == 'window']
-    bad, obs = predicates(p, G, omega, window)
+    try:
+        bad, obs = predicates(p, G, omega, window)
+    except Exception as e:      # noqa: the implementation raised on an input of the property's domain
+        bad, obs = [('exception', 'c04-exception', 'implementation raised %r' % (e,))], None
     return p, G, omega, spec, bad, obs
 
 
@@ -389,7 +392,7 @@ def run(ctx):
     for i, (p, G, omega, obs, _, win) in enumerate(cases):
         for which in (('rest', 'enc') if win else ('all',)):
             nm = 'case%d_%s' % (i, which)
-            heavy = G >= 16 or (G >= 5 and len(p.basis) >= 16)
+            heavy = (G >= 16 and len(p.basis) >= 9) or (G >= 5 and len(p.basis) >= 16)
             txt, st = coq_case(nm, p, G, omega, obs, heavy, which)
             defs.append((nm, txt))
             meta.append((i, which))
